@@ -558,6 +558,7 @@ pub fn build_random(r: &mut Rng, ncols: usize, npi: usize, d: usize, n: usize) -
         cons.push(Constraint { kind: Kind::First, expr: e });
     }
     // trace
+    let zero_free = r.below(3) == 0;
     let mut rows: Vec<Vec<F>> = vec![];
     let mut pis: Vec<F> = vec![F::ZERO; npi];
     for si in 0..nf { pis[si] = init[si] }
@@ -569,7 +570,8 @@ pub fn build_random(r: &mut Rng, ncols: usize, npi: usize, d: usize, n: usize) -
         for (si, &c) in state.iter().enumerate() {
             row[c] = if i == 0 { init[si] } else { fs[si].eval::<F>(&rows[i - 1], &[], &pis) };
         }
-        if let Some(u) = free { row[u] = rf(r) }
+        // the free column: random, or IDENTICALLY ZERO (an unused column: a zero polynomial in every opening batch)
+        if let Some(u) = free { row[u] = if zero_free { F::ZERO } else { rf(r) } }
         if let Some((k, e)) = &g { row[*k] = e.eval::<F>(&row, &[], &pis) }
         rows.push(row);
     }
